@@ -70,7 +70,9 @@ package phase1
 //@   requires p != nil && node != nil && p.visited != nil && p.active != nil && p.visited != p.active && outWF()
 //@   requires forall x *Node :: p.active[x] ==> p.visited[x]
 //@   requires forall m *Node :: arr(m.Out) == 0 || arr(m.Out) != arr(p.reversable)
+//@   requires forall m *Node :: arr(m.In) == 0 || arr(m.In) != arr(p.reversable)
 //@   ensures outWF() && (forall m *Node :: arr(m.Out) == 0 || arr(m.Out) != arr(p.reversable))
+//@   ensures forall m *Node :: arr(m.In) == 0 || arr(m.In) != arr(p.reversable)
 //@   modifies map[*Node]bool, depthFirstProcessor.reversable, Elems[*Edge], alloc
 //@   ensures forall x *Node :: p.active[x] == old(p.active[x])
 //@   ensures forall x *Node :: old(p.visited[x]) ==> p.visited[x]
@@ -86,6 +88,7 @@ package phase1
 //@   loop range(node.Out)#1 index i
 //@     invariant p.visited == old(p.visited) && p.active == old(p.active)
 //@     invariant outWF() && (forall m *Node :: arr(m.Out) == 0 || arr(m.Out) != arr(p.reversable))
+//@     invariant forall m *Node :: arr(m.In) == 0 || arr(m.In) != arr(p.reversable)
 //@     invariant forall x *Node :: p.active[x] == (x == node || old(p.active[x]))
 //@     invariant forall x *Node :: old(p.visited[x]) ==> p.visited[x]
 //@     invariant p.visited[node] && !old(p.visited[node])
@@ -103,3 +106,20 @@ package phase1
 //@   ensures !random ==> result == nodes[len(nodes) / 2]
 //@   ensures exists k int :: 0 <= k && k < len(nodes) && result == nodes[k]
 //@   modifies nothing
+
+// execDepthFirst (C01, C14): the processor starts with empty sets; outside visit no node is active; every edge
+// collected for reversal is a non-nil edge, and the list lives apart from the adjacency lists that Reverse rewrites.
+//@ func execDepthFirst
+//@   requires g != nil && outWF()
+//@   loop range(g.Sources())#1
+//@     invariant p != nil && p.visited != nil && p.active != nil && p.visited != p.active && outWF() && (forall x *Node :: !p.active[x])
+//@     invariant (forall m *Node :: arr(m.Out) == 0 || arr(m.Out) != arr(p.reversable)) && (forall m *Node :: arr(m.In) == 0 || arr(m.In) != arr(p.reversable))
+//@     invariant (p.reversable == nil || allocatedArr(p.reversable)) && (forall k int :: 0 <= k && k < len(p.reversable) ==> p.reversable[k] != nil)
+//@   loop range(g.Nodes)#1
+//@     invariant p != nil && p.visited != nil && p.active != nil && p.visited != p.active && outWF() && (forall x *Node :: !p.active[x])
+//@     invariant (forall m *Node :: arr(m.Out) == 0 || arr(m.Out) != arr(p.reversable)) && (forall m *Node :: arr(m.In) == 0 || arr(m.In) != arr(p.reversable))
+//@     invariant (p.reversable == nil || allocatedArr(p.reversable)) && (forall k int :: 0 <= k && k < len(p.reversable) ==> p.reversable[k] != nil)
+//@   loop range(p.reversable)#1 index r
+//@     invariant p != nil && (p.reversable == nil || allocatedArr(p.reversable)) && p.reversable == loopold(p.reversable)
+//@     invariant (forall m *Node :: arr(m.Out) == 0 || arr(m.Out) != arr(p.reversable)) && (forall m *Node :: arr(m.In) == 0 || arr(m.In) != arr(p.reversable))
+//@     invariant forall k int :: 0 <= k && k < len(p.reversable) ==> p.reversable[k] != nil && p.reversable[k] == loopold(p.reversable[k])
